@@ -119,6 +119,15 @@ func c07Deviations() []envDev {
 		s.jSet(envenc.HdrExpiry, `"`+txt+`"`)
 		s.jSet(s.timeHdr(), `"`+txt+`"`)
 	})
+	// JWS times may carry fractions of a second: "strictly later" is a comparison of instants, not of seconds
+	add("jws-expiry-earlier-within-the-same-second", "expiry+time", "reject", "jws", "expiry", func(s *envSpec) {
+		s.jSet(s.timeHdr(), js(s.cont.SigningTime.Add(900*time.Millisecond).UTC().Format(time.RFC3339Nano)))
+		s.jSet(envenc.HdrExpiry, js(s.cont.SigningTime.Add(500*time.Millisecond).UTC().Format(time.RFC3339Nano)))
+	})
+	add("jws-expiry=signing-both-with-a-fraction", "expiry+time", "reject", "jws", "expiry", func(s *envSpec) {
+		s.jSet(s.timeHdr(), js(s.cont.SigningTime.Add(500*time.Millisecond).UTC().Format(time.RFC3339Nano)))
+		s.jSet(envenc.HdrExpiry, js(s.cont.SigningTime.Add(500*time.Millisecond).UTC().Format(time.RFC3339Nano)))
+	})
 	add("expiry=signing+1s", "expiry", "benign", "", "expiry", func(s *envSpec) {
 		t := s.cont.SigningTime.Add(time.Second)
 		s.hSet(envenc.HdrExpiry, js(t.UTC().Format(time.RFC3339)), envenc.CTime(t))
@@ -482,6 +491,15 @@ func c07Body(c *mc.Ctx, b c07Base, keyName string) {
 			recorded = true
 		}
 	}
+	// the same header set in another spelling of its names (JSON \u escapes; CBOR heads longer than the shortest form), or of the entries
+	// of crit: the same names to any reader. Whether such an envelope is accepted at all is not judged (a strict reader may refuse the
+	// spelling); what must be rejected still is, and what is returned is still compared.
+	if sp := c.Choose("spelling", 3); sp != 0 {
+		spec.respell = []string{"", "labels", "crit-entries"}[sp]
+		names = append(names, "spelling-of-"+spec.respell)
+		c.Cover("spelling:" + spec.respell)
+		recorded = true
+	}
 	env, _, _, valid := spec.encode(nil, "")
 	if !valid {
 		panic(mc.HarnessError{Msg: "C07: encoder could not produce a valid signature for " + fmt.Sprint(names)})
@@ -492,6 +510,9 @@ func c07Body(c *mc.Ctx, b c07Base, keyName string) {
 	verifyOK := vperr == nil && verr == nil && vpan == nil
 	contentOK := cperr == nil && cerr == nil && cpan == nil
 	c.Outcome(fmt.Sprintf("verify=%v content=%v", verifyOK, contentOK))
+	if spec.respell != "" {
+		c.Outcome(fmt.Sprintf("spelling-of-%s(%s):verify=%v", spec.respell, mediaShort(b.media), verifyOK))
+	}
 	c.Tracef("%s %s deviations %v -> Verify: parse=%v err=%v; Content: err=%v", b.media, b.scheme, names, vperr, verr, cerr)
 	sig := func(what string) string {
 		var rej []string
